@@ -211,6 +211,22 @@ def mixed_lookup_ops(r):
     return ops
 
 
+def respell_ops(r):
+    """the same bytes memoized by several calls through several backend objects (Reopen): they share one stored object"""
+    ops = []
+    vals = [{"t": "bytes", "size": 50 + 10 * i, "fill": i} for i in range(3)]
+    for round_ in range(3):
+        for _ in range(r.randint(2, 4)):
+            f, h = r.randint(1, 3), r.randint(1, 3)
+            ops.append({"op": "Memoize", "f": f, "h": h, "value": r.choice(vals), "ovr": 0})
+            if r.random() < 0.5:
+                ops.append({"op": "ReadResult", "f": f, "h": h})
+        ops.append({"op": "GetMementos", "keys": [[r.randint(1, 3), r.randint(1, 3)] for _ in range(2)]})
+        ops.append({"op": "Reopen"})
+    ops.append({"op": "ListFunctions"})
+    return ops
+
+
 def ro_attempts(r, n, nf=3, nh=3):
     """Histories for a read-only backend: every kind of operation, writes included."""
     ops = random_ops(r, n, nf, nh, weak=False, writes=True)
@@ -380,6 +396,10 @@ def run(prop, tier):
                 ops = mixed_lookup_ops(r) + mixed_lookup_ops(r)
             else:
                 ops = random_ops(r, ln, budget=c["budget"] or 300, weak=(i % 3 != 0))
+            if prop in ("C07", "C05") and i % 4 == 2 and c["kind"] == "fs":
+                # the store reached through differently spelled paths by successive backend objects, with values written twice
+                c["respell"] = True
+                ops = respell_ops(r)
             jobs.append({"cfg": c, "ops": ops, "id": "rand"})
             models.append(None)
         if prop == "C19":
